@@ -14,9 +14,7 @@ CONSTANTS Shard, NShards,
           Rot           \* rotation of the input choice (seed)
 VARIABLE c
 
-A(s) == IF s = "a" THEN <<97>> ELSE IF s = "b" THEN <<98>> ELSE IF s = "ab" THEN <<97, 98>> ELSE <<>>
-GenLit == [str |-> ("a" :> <<97>>) @@ ("b" :> <<98>>) @@ ("ab" :> <<97, 98>>) @@ ("key" :> K_key) @@ ("value" :> K_value) @@ ("x" :> <<120>>) @@ (", " :> <<44, 32>>),
-           num |-> ("0" :> 0) @@ ("1" :> 1) @@ ("2" :> 2) @@ ("3" :> 3)]
+GenLit == StdLit
 Sa == JStr(<<97>>)  Sab == JStr(<<97, 98>>)  S0 == JStr(<<>>)
 O1(k, v) == JObjRaw(<<k>>, <<v>>)
 Inputs == << JNull, JFalse, JTrue, JNum(0), JNum(1), JNum(-1), JNum(2), S0, Sa, Sab, JArr(<<>>), JEmptyObj,
